@@ -467,8 +467,11 @@ LEVEL_TEXT = ('Proof: for the tables regenerated from finite_diff on every run, 
               'named by _ADJ_METHOD/_ADJ_PADDING is exactly minus the transpose (<Df,g> = -<f,D\'g> for all f,g). '
               'Both statements are lifted to arrays of EVERY shape and every axis (Lib/AxisR: adjoint, extensionality '
               'and additivity of apply-along-axis): PartialDerivative, Gradient* = -Divergence, Divergence* = -Gradient, '
+              'Gradient components, Divergence (sum over the axes) and the Laplacian (sum of textbook second differences '
+              'for the four base modes) equal the textbook stencils for every shape; '
               'the Laplacian is self-adjoint with the SAME pad mode for the six modes the class accepts, and the '
-              'constant-padding variant is affine with the zero-padding scheme as exact difference quotient; finite_diff is '
+              'constant-padding variant is affine with the zero-padding scheme as exact difference quotient (1-d and all four '
+              'N-d operators on every shape: op_c(x+h) = op_c(x) + op_0(h)); finite_diff is '
               'linear in (pad_const, array) for all 30 pairs (the regenerated tables contain only linear forms); the model '
               'executed at Q is proved to be the restriction of the model proved at R (Q2R transfer). '
               'order2 x forward/backward is proved to violate the literal statement (recorded finding) and what it '
